@@ -72,9 +72,9 @@ def _same_outcome(ta, ra, tb, rb):
     return True
 
 
-def _gemini_seg(n, m, c1, c2, late, mode):
+def _gemini_seg(n, m, c1, c2, late, mode, trailer=b""):
     # (contract lives on the partitioned wrappers below)
-    stream = mk(b"gemini://h/", Fill(n), b"?q=1\r\n", Fill(m))
+    stream = mk(b"gemini://h/", Fill(n), b"?q=1\r\n", trailer, Fill(m))
     total = len(stream)
     if c2 > total:
         c2 = total
@@ -170,6 +170,32 @@ def gemini_cut2_c(n: int, m: int, c1: int, c2: int) -> bool:
     post: _
     """
     return _gemini_seg(n, m, c1, c2, 0, 0)
+
+
+def gemini_trailing_request(n: int, c: int, late: int) -> bool:
+    """
+    pre: 0 <= n <= NMAX
+    pre: 0 <= c <= n + 40
+    pre: 0 <= late <= 1
+    post: _
+    """
+    # what follows the request line is itself a complete, valid request line (pipelining attempt / smuggling): it must
+    # never be served, whether the first line was accepted or refused as over-long, wherever the stream is cut
+    stream = mk(b"gemini://h/", Fill(n), b"?q=1\r\n", b"gemini://h/second\r\n")
+    if c > len(stream):
+        c = len(stream)
+    tb, rb = _run(stream, [c], [mk(b"gemini://h/third\r\n")] * late, 0, False)
+    for call in rb.calls:
+        if call[1] == "/second" or call[1] == "/third":
+            return V(False)
+    data, closes, lates = wire_response(tb)
+    if len(rb.calls) > 1 or lates or closes < 1:
+        return V(False)
+    too_long = 11 + n + 4 + 2 > 1024
+    head = data.segs[0] if data.segs else b""
+    if too_long:
+        return V(len(rb.calls) == 0 and head[:2] == b"59")
+    return V(len(rb.calls) == 1 and head[:2] == b"20")
 
 
 def gemini_late_sync(n: int, m: int, c: int, late: int) -> bool:
@@ -326,6 +352,39 @@ def _tls_coalesce(mode, n, cut, late, titan, sk):
     return V(p1.same_as(p0) and c1 == c0 and (t1.closed > 0) == (t0.closed > 0))
 
 
+def tls_trailing_request(mode: int, n: int, late: int) -> bool:
+    """
+    pre: 0 <= mode <= 2 and 0 <= n <= NMAX and 0 <= late <= 1
+    post: _
+    """
+    # several TLS records decrypted from ONE tcp read: the request line (accepted or over-long) and then a record that
+    # is itself a complete request line; the pump keeps handing records up within the same read, so "asyncio stops
+    # reading a closed transport" does not protect the inner protocol here
+    from vf.tls import StubTLSConn
+    from vf.tlsserver import feed, make_tls
+    rec = _Rec(0)
+    conn = StubTLSConn(flights=1)
+    outer, tcp, loop, conn, made = make_tls(rec, None, None, conn)
+    first = ("app", mk(b"gemini://h/", Fill(n), b"?q=1\r\n"))
+    second = ("app", mk(b"gemini://h/second\r\n"))
+    if mode == 0:
+        feed(outer, tcp, [("hs",)])
+        feed(outer, tcp, [first, second])
+    elif mode == 1:
+        feed(outer, tcp, [("hs",), first, second])
+    else:
+        feed(outer, tcp, [("hs",)])
+        feed(outer, tcp, [first, second, ("app", mk(b"gemini://h/third\r\n"))])
+    for _ in range(late):
+        feed(outer, tcp, [("app", mk(b"gemini://h/third\r\n"))])
+    loop.run_ready()
+    for call in rec.calls:
+        if call[1] == "/second" or call[1] == "/third":
+            return V(False)
+    too_long = 11 + n + 4 + 2 > 1024
+    return V(len(rec.calls) == (0 if too_long else 1))
+
+
 def tls_coalesce_gemini(mode: int, n: int, cut: int, late: int) -> bool:
     """
     pre: 1 <= mode <= 5 and 0 <= n <= 1100 and 0 <= cut <= n + 14 and 0 <= late <= 1
@@ -344,7 +403,8 @@ def tls_coalesce_titan(mode: int, n: int, cut: int, late: int, sk: int) -> bool:
 
 
 META = {
-    "files": ["src/nauyaca/server/protocol.py", "src/nauyaca/protocol/request.py", "src/nauyaca/utils/url.py"],
+    "files": ["src/nauyaca/server/protocol.py", "src/nauyaca/server/tls_protocol.py", "src/nauyaca/protocol/request.py",
+              "src/nauyaca/utils/url.py"],
     "level": "model_checking",
     "explanation": ("Relational bounded symbolic execution of the real GeminiServerProtocol: the same byte stream is "
                     "delivered once in a single read and once cut at two symbolic offsets followed by 0..2 late reads; "
@@ -368,6 +428,11 @@ OBLIGATIONS = [
     Ob("gemini_cut2_c", gemini_cut2_c, quick=400, thorough=1200,
        symbolic="line filler n in 0..1200, trailing garbage m in 0..50, two cut offsets (first cut in the query, CRLF or trailing garbage), sync handler",
        functions=["GeminiServerProtocol.data_received", "_handle_gemini_request", "_route_request", "_handle_async_handler_result", "_send_response"], stubs=["FakeTransport", "MiniLoop", "SymBuf", "NoLog", "FixedClock"], outside=["more than two cuts"]),
+    Ob("gemini_trailing_request", gemini_trailing_request, quick=300, thorough=900,
+       symbolic="line length 17..1217 (accepted and over-long), a complete second request line after the first, one cut offset "
+                "anywhere, a third request line in a late read",
+       functions=["GeminiServerProtocol.data_received", "_handle_gemini_request", "_route_request", "_send_response"],
+       stubs=["FakeTransport", "MiniLoop", "SymBuf", "NoLog", "FixedClock"]),
     Ob("gemini_late_sync", gemini_late_sync, quick=400, thorough=1200,
        symbolic="line filler n in 0..1200, trailing garbage m in 0..50, one cut offset, 0..2 late reads; sync handler",
        functions=["GeminiServerProtocol.data_received", "_handle_gemini_request", "_route_request", "_handle_async_handler_result", "_send_response"], stubs=["FakeTransport", "MiniLoop", "SymBuf", "NoLog", "FixedClock"]),
@@ -398,6 +463,12 @@ OBLIGATIONS = [
     Ob("titan_70k_late", titan_70k_late, quick=400, thorough=1200,
        symbolic="declared size 70000, content length 0..80000, one cut anywhere, 0..2 late reads",
        functions=["GeminiServerProtocol.data_received", "_handle_titan_url", "_process_titan_upload", "_handle_titan_upload_result", "TitanRequest.from_line"], stubs=["FakeTransport", "MiniLoop", "SymBuf", "NoLog", "FixedClock"]),
+    Ob("tls_trailing_request", tls_trailing_request, quick=300, thorough=900,
+       symbolic="request line of 17..1217 bytes (accepted and over-long) followed, within the same TCP read, by a TLS record holding a "
+                "second complete request line (and a third), 3 delivery modes, a late read with another one",
+       functions=["TLSServerProtocol.data_received", "_process_pending_after_handshake", "_process_application_data",
+                  "TLSTransportWrapper", "GeminiServerProtocol.data_received"],
+       stubs=["StubTLSConn", "FakeTransport", "MiniLoop", "SymBuf"], outside=["real TLS record parsing (OpenSSL)"]),
     Ob("tls_coalesce_gemini", tls_coalesce_gemini, quick=500, thorough=1500,
        symbolic="TLS record delivery mode (request coalesced with the final handshake flight / two records in one read / two reads with an "
                 "empty read between / first half with the handshake), line filler or trailing bytes 0..1100, cut offset, 0..2 late reads of "
